@@ -6,7 +6,6 @@ pid=$1; src=$2; label=${3:-$pid}
 wt=/tmp/sv_$label
 out=/verif/seeded/$label
 mkdir -p $out
-cd /repo && git diff --quiet || { echo "repo dirty"; exit 9; }
 git -C /repo worktree remove --force $wt 2>/dev/null
 git -C /repo worktree add -q --detach $wt HEAD || exit 8
 cp $src/patch.diff $src/demo.py $out/ 2>/dev/null
@@ -21,10 +20,9 @@ echo "== dataset tests with the change (2000 samples)" >> $log
 (cd $wt && PYTHONPATH=$wt timeout 1800 /venv/bin/python -m pytest -q -p no:cacheprovider tests/test_on_datasets.py --dataset_samples 2000 2>&1 | tail -5) >> $log
 echo "== demo with the change" >> $log
 (cd $wt && PYTHONPATH=$wt timeout 600 /venv/bin/python $out/demo.py > /tmp/demo1.out 2>&1; echo "exit=$?" >> /tmp/demo1.out); tail -3 /tmp/demo1.out >> $log
-git -C /repo worktree remove --force $wt
-echo "== ./check $pid --tier quick with the change applied to /repo" >> $log
+echo "== ./check $pid --tier quick against the tree with the change (VERIF_REPO=$wt; /repo itself is not touched)" >> $log
 cp /verif/evidence/$pid.json /tmp/ev_$pid.bak 2>/dev/null
-git -C /repo apply $out/patch.diff && (cd /verif && timeout 1800 ./check $pid --tier quick 2>&1 | grep -v WARNING | grep -E "VIOLATION|sig=|RESULT|HARNESS|KNOWN" | cut -c1-400; echo "check_exit=${PIPESTATUS[0]}") >> $log
-git -C /repo checkout -- . 
+(cd /verif && VERIF_REPO=$wt timeout 1800 ./check $pid --tier quick 2>&1 | grep -v WARNING | grep -E "VIOLATION|sig=|RESULT|HARNESS|KNOWN" | cut -c1-400; echo "check_exit=${PIPESTATUS[0]}") >> $log
 cp /tmp/ev_$pid.bak /verif/evidence/$pid.json 2>/dev/null
+git -C /repo worktree remove --force $wt
 cat $log | cut -c1-300
